@@ -13,7 +13,7 @@
 #include "mcx/mcx.h"
 using namespace std; using namespace topology;
 static mcx::Ctx ctx;
-struct Op { int dim, node; double target; };
+struct Op { int dim, node; double target; int node2 = -1; double target2 = 0; };   // node2 >= 0: two nodes dragged in the same step
 typedef array<double, 2> XY;
 struct EdgeSpec { int a, b; int viaNode, viaCorner; };   // viaNode<0: straight; else bent round that node's corner
 struct Scene { vector<XY> pos; vector<EdgeSpec> edges; };
@@ -28,7 +28,7 @@ static XY corner(const XY &c, int k) { // EdgePoint::RectIntersect order TR, BR,
     switch (k) { case 0: return {c[0] + HW, c[1] + HW}; case 1: return {c[0] + HW, c[1] - HW}; case 2: return {c[0] - HW, c[1] - HW}; default: return {c[0] - HW, c[1] + HW}; } }
 static double crs(double ax, double ay, double bx, double by, double cx, double cy) { return (bx - ax) * (cy - ay) - (cx - ax) * (by - ay); }
 static string scene_str(const Scene &s) { string r = "nodes:"; for (auto &p : s.pos) r += mcx::fmt(" (%g,%g)", p[0], p[1]); r += " edges:"; for (auto &e : s.edges) r += e.viaNode < 0 ? mcx::fmt(" %d-%d", e.a, e.b) : mcx::fmt(" %d-[node%d corner%d]-%d", e.a, e.viaNode, e.viaCorner, e.b); return r; }
-static string ops_str(const vector<Op> &ops, size_t upto) { string r; for (size_t k = 0; k <= upto && k < ops.size(); k++) r += mcx::fmt(" [%s node%d ->%g]", ops[k].dim ? "Y" : "X", ops[k].node, ops[k].target); return r; }
+static string ops_str(const vector<Op> &ops, size_t upto) { string r; for (size_t k = 0; k <= upto && k < ops.size(); k++) r += ops[k].node2 < 0 ? mcx::fmt(" [%s node%d ->%g]", ops[k].dim ? "Y" : "X", ops[k].node, ops[k].target) : mcx::fmt(" [%s node%d ->%g & node%d ->%g]", ops[k].dim ? "Y" : "X", ops[k].node, ops[k].target, ops[k].node2, ops[k].target2); return r; }
 // swept angle of (path - centre of node v)
 static double swept(const vector<XY> &path, double cx, double cy) {
     double s = 0; for (size_t i = 0; i + 1 < path.size(); i++) { double ax = path[i][0] - cx, ay = path[i][1] - cy, bx = path[i + 1][0] - cx, by = path[i + 1][1] - cy; s += atan2(ax * by - ay * bx, ax * bx + ay * by); } return s;
@@ -48,6 +48,7 @@ static void run_case(const Scene &sc, const vector<Op> &ops) {
             vpsc::Variables vs; for (auto n : nodes) vs.push_back(n->var); vpsc::Constraints cs;
             for (auto n : nodes) { n->var->desiredPosition = n->rect->getCentreD(dim); n->var->weight = 1; }
             nodes[op.node]->var->desiredPosition = op.target; nodes[op.node]->var->weight = 10000;
+            if (op.node2 >= 0) { nodes[op.node2]->var->desiredPosition = op.target2; nodes[op.node2]->var->weight = 10000; }
             bool loop = false, asserted = false;
             // an internal assertion (several of them ARE the property) must not hide the state it left behind:
             // catch it here, judge the state with the harness's own oracle, then stop this history
@@ -120,6 +121,20 @@ static vector<Scene> scenes4() {
         if (!ok) continue; s.edges = {{0, 1, -1, 0}, {2, 3, -1, 0}}; out.push_back(s); }
     return out;
 }
+static vector<Scene> scenes4abut(int W, int H) {
+    double sp = 2 * HW; vector<Scene> out; int C = W * H;
+    for (int a = 0; a < C; a++) for (int b = a + 1; b < C; b++) for (int c = 0; c < C; c++) for (int d = c + 1; d < C; d++) { if (a == c || a == d || b == c || b == d) continue;
+        Scene s; auto cell = [&](int k) { return XY{sp * (k % W), sp * (k / W)}; }; s.pos = {cell(a), cell(b), cell(c), cell(d)}; bool ok = true;
+        for (int v : {2, 3}) if (segHitsRect(s.pos[0][0], s.pos[0][1], s.pos[1][0], s.pos[1][1], s.pos[v][0], s.pos[v][1], HW, 1e-9)) ok = false;
+        if (!ok) continue; s.edges = {{0, 1, -1, 0}}; out.push_back(s); }
+    return out;
+}
+// operations that drag the two obstacle nodes 2 and 3 in one step (both with weight 10000), plus the single drags
+static void explore_pairs(const char *name, const vector<Scene> &scs, const vector<double> &targets) {
+    vector<Op> alphabet; for (int d = 0; d < 2; d++) for (double t1 : targets) for (double t2 : targets) { Op o; o.dim = d; o.node = 2; o.target = t1; o.node2 = 3; o.target2 = t2; alphabet.push_back(o); }
+    ctx.phase(mcx::fmt("%s: %zu start scenes x %zu simultaneous two-node drags", name, scs.size(), alphabet.size()));
+    for (auto &sc : scs) { for (auto &o : alphabet) { if (!ctx.next()) continue; vector<Op> ops = {o}; ctx.sample(scene_str(sc) + " ops:" + ops_str(ops, 1)); ctx.count("evaluations"); run_case(sc, ops); ctx.done_case(); } if (ctx.stopped()) break; }
+}
 static void explore(const char *name, const vector<Scene> &scs, int depth, const vector<double> &targets) {
     size_t N = scs.empty() ? 0 : scs[0].pos.size(); vector<Op> alphabet; for (int d = 0; d < 2; d++) for (size_t n = 0; n < N; n++) for (double t : targets) alphabet.push_back({d, (int)n, t});
     ctx.phase(mcx::fmt("%s: %zu start scenes x all op sequences of depth %d over %zu ops", name, scs.size(), depth, alphabet.size()));
@@ -136,6 +151,9 @@ int main(int argc, char **argv) {
     explore("3 nodes, straight edge", scenes3(false), 2, {0, 20, 40, 60});
     explore("3 nodes, edge bent round node 2", scenes3(true), 2, {0, 20, 40, 60});
     explore("4 nodes, two straight edges", scenes4(), T ? 2 : 1, {0, 20, 40});
-    if (T) { explore("3 nodes, straight edge", scenes3(false), 3, {0, 20, 40, 60}); explore("3 nodes, edge bent round node 2", scenes3(true), 3, {0, 20, 40, 60}); }
+    explore_pairs("4 abutting nodes (spacing = node size) on 4x3 cells, one edge", scenes4abut(4, 3), {0, 10, 20, 30});
+    explore("4 abutting nodes on 3x3 cells, one edge", scenes4abut(3, 3), 1, {0, 10, 20});
+    if (T) { explore_pairs("4 abutting nodes on 4x4 cells, one edge", scenes4abut(4, 4), {0, 10, 20, 30}); explore("4 abutting nodes on 3x3 cells, one edge", scenes4abut(3, 3), 2, {0, 10, 20});
+             explore("3 nodes, straight edge", scenes3(false), 3, {0, 20, 40, 60}); explore("3 nodes, edge bent round node 2", scenes3(true), 3, {0, 20, 40, 60}); }
     return ctx.finish();
 }
